@@ -24,6 +24,8 @@ Tab(a) ==
     [] a = "call" -> << <<37, 118, 101, 114, 115, 105, 111, 110, 40>>, <<37, 97, 112, 112, 110, 97, 109, 101, 40>>,
                         <<37, 114, 97, 110, 100, 111, 109, 40>>, <<41>>, <<97>>, <<32>>, <<37>>, <<37, 71, 69, 84, 40>>, <<39>> >>
                                                                       \* %version( %appname( %random( ) a blank % %GET( '
+    [] a = "app"  -> << <<37, 97, 49, 40>>, <<37, 65, 50, 40>>, <<37, 97, 51, 40>>, <<41>>, <<120>>, <<37, 118, 101, 114, 115, 105, 111, 110, 40>> >>
+                                                                      \* %a1( %A2( %a3( ) x %version(      (application built-ins)
     [] a = "mix"  -> << <<92>>, <<39>>, <<34>>, <<36>>, <<123>>, <<125>>, <<65>>, <<126>>, <<37, 103, 101, 116, 40>>, <<41>> >>
                                                                       \*  \ ' " $ { } A ~ %get( )
 EnvsOf(a) == CASE a = "til" -> {1, 2, 3} [] a = "dol2" -> {1, 3} [] a = "mix" -> {1, 2} [] OTHER -> {1}
@@ -32,6 +34,7 @@ EnvsOf(a) == CASE a = "til" -> {1, 2, 3} [] a = "dol2" -> {1, 3} [] a = "mix" ->
 LenOf(a, e, st) == IF a = "pg" THEN (IF Len(st) = 0 THEN N ELSE IF Len(st) = 1 THEN N1 ELSE N2)
                    ELSE IF st # <<>> THEN -1
                    ELSE IF a = "call" THEN NCall
+                   ELSE IF a = "app" THEN NCall - 1
                    ELSE IF a = "mix" THEN (IF e = 1 THEN NMix ELSE NMix - 1)
                    ELSE IF a = "dol2" \/ (a = "til" /\ e # 1) THEN N - 1
                    ELSE N
@@ -51,11 +54,16 @@ TextsOf(a, n) == {Flat(ss, Tab(a)) : ss \in SymStrings(a, n)}
 \* the text sets are constants: evaluated once (TLC caches constant-level definitions), not per idle state
 DummyStores == {<<>>, <<0>>, <<0, 0>>}
 TextCache == [p \in {q \in {<<a, LenOf(a, e, d)>> : a \in Sel, e \in {1, 2, 3}, d \in DummyStores} : q[2] >= 0} |-> TextsOf(p[1], p[2])]
-StartsMC(st) == UNION {{p[2]} \X TextCache[<<p[1], LenOf(p[1], p[2], st)>>] :
+StartsReg0(st) == UNION {{p[2]} \X TextCache[<<p[1], LenOf(p[1], p[2], st)>>] :
                         p \in {q \in {<<a, e>> : a \in Sel, e \in {1, 2, 3}} : q[2] \in EnvsOf(q[1]) /\ LenOf(q[1], q[2], st) >= 0}}
 
 AppNameMC(e) == <<97, 112>>          \* "ap"
 AppVersionMC(e) == <<49, 46, 50>>    \* "1.2"
+\* once the application has registered built-ins only the "app" alphabet is offered (it cannot change the store)
+StartsMC(st, rg) == IF rg = <<>> THEN StartsReg0(st)
+                    ELSE IF "app" \in Sel THEN {1} \X TextCache[<<"app", LenOf("app", 1, st)>>] ELSE {}
+RegNone == <<>>
+RegMC == << [name |-> <<97, 49>>, kind |-> 0], [name |-> <<97, 50>>, kind |-> 1], [name |-> <<97, 51>>, kind |-> 2] >>      \* a1 a2 a3
 StoreBound == Len(store) <= 2
 ObsEmit(op, args, ret, post) ==
     PrintT(ToJson([pre |-> store0, op |-> op, args |-> args, ret |-> ret, post |-> post]))
